@@ -1060,7 +1060,11 @@ def _misc_worker(task):
 def bounded_rank_models(tier):
     _rank_env()   # build before forking so that the workers share the models
     col = _Collector()
-    dom = _rank_domain(tier) + _rank_lrtdf_domain()
+    # The clause C_R_LRTDF ("degrees of freedom count ESTIMATED parameters only") was removed after
+    # triage: the property speaks of "the difference in parameter count", which is what the code
+    # computes (and what contracts/criteria.py proves); demanding estimated-only counts asked for more
+    # than the property states (false alarm, see DESIGN.md section 5).
+    dom = _rank_domain(tier)
     # expensive (mixed BIC) cases are spread evenly: interleave the chunks
     n = NPROC * 8
     idx = list(range(len(dom)))
